@@ -9,21 +9,26 @@ from vt.ref import c608_table as T
 ID = "C17"
 RULE = ("all 65,536 word values enumerated (exhaustive); a value is non-trivial when its parity-stripped form is not "
         "padding; distinct = distinct (parity-stripped value, observed description) pairs; disassembly: every 1-word line, "
-        "all pairs of class representatives, random 2-4 word lines")
+        "all pairs of class representatives, random 2-4 word lines; consumer probe: three channel-1 streams (pop-on, roll-up, paint-on) re-read "
+        "with channel-2 / field-2 code words inserted on lines of their own (every such control code at 5 positions, representatives of the other "
+        "classes, random combinations) - the returned document must not change")
 ASSUMPTIONS = [
   "reference table written from the CEA-608 bit layout (vt/ref/c608_table.py)",
   "glyph-ambiguous extended-character cells (em dash, caret, bars, box corners, bullet) accept several code points",
   "second byte 01h-1Fh after a printable first byte: rendering not judged (only the first character)",
   "indent PAC may report colour None or white; colour PAC may report indent None or 0",
+  "consumer probe: every line of the base streams starts with a channel-1 control code, so no text follows a foreign code without an intervening "
+  "channel-1 code; documents compared by deep fingerprint (absdoc.fingerprint)",
 ]
 REQUIRED = ["cls:padding", "cls:chars", "cls:pac", "cls:midrow", "cls:control", "cls:attribute", "cls:special",
-            "cls:extended", "cls:unknown", "channel:1", "channel:2", "channel:None-field2", "disasm:lines"]
+            "cls:extended", "cls:unknown", "channel:1", "channel:2", "channel:None-field2", "disasm:lines", "consume:probes", "consume:class:control:chNone:field2", "consume:class:control:ch2"]
 SHARD_TIMEOUT = {"quick": 600, "thorough": 1800}
 
 
 def plan(tier, seed):
   shards = [{"kind": "words", "lo": lo, "hi": lo + 0x1000} for lo in range(0, 0x10000, 0x1000)]
   shards.append({"kind": "disasm", "random": 2000 if tier == "quick" else 200000})
+  shards.append({"kind": "consume", "random": 150 if tier == "quick" else 4000})
   return shards
 
 
@@ -286,7 +291,103 @@ def representatives():
   return sorted(set(out))
 
 
+# --- "so that only channel-1 field-1 data is ever decoded": consumer-side probe ------------------------------------------------
+# Channel-1 base streams in the three caption modes; every line starts with a channel-1 control code, so a code of another
+# channel (or of field 2) transmitted on a line of its own in between cannot legitimately change what channel 1 shows.
+def _p(v):
+  from vt.gen import scc as G
+  return "%04x" % G.apply_parity(v, "odd")
+
+
+def _txt(sx):
+  sx = sx if len(sx) % 2 == 0 else sx + " "
+  return [(ord(sx[i]) << 8) | ord(sx[i + 1]) for i in range(0, len(sx), 2)]
+
+
+BASES = {
+  "pop": [(30, [0x1420, 0x1420, 0x1470, 0x1470] + _txt("HELLO YOU") + [0x142F, 0x142F]),
+          (120, [0x1420, 0x1420, 0x1350, 0x1350] + _txt("SECOND") + [0x112E, 0x112E] + _txt("ONE") + [0x142F, 0x142F]),
+          (210, [0x142C, 0x142C])],
+  "roll": [(30, [0x1425, 0x1425, 0x142D, 0x142D, 0x1470, 0x1470] + _txt("ROW ONE")),
+           (120, [0x142D, 0x142D, 0x1470, 0x1470] + _txt("ROW TWO")),
+           (210, [0x142D, 0x142D, 0x1470, 0x1470] + _txt("ROW THREE")),
+           (300, [0x142C, 0x142C])],
+  "paint": [(30, [0x1429, 0x1429, 0x1370, 0x1370] + _txt("PAINTED")),
+            (120, [0x1429, 0x1429, 0x1470, 0x1470] + _txt("MORE TEXT")),
+            (210, [0x142C, 0x142C])],
+}
+
+
+def _render(lines):
+  out = ["Scenarist_SCC V1.0", ""]
+  for f, ws in sorted(lines, key=lambda x: x[0]):
+    out += ["00:00:%02d:%02d\t%s" % (f // 30, f % 30, " ".join(_p(w) for w in ws)), ""]
+  return "\n".join(out) + "\n"
+
+
+def _read_fp(text):
+  import ttconv.scc.reader as scc_reader
+  from vt.ref import absdoc
+  return absdoc.fingerprint(scc_reader.to_model(text))
+
+
+def check_consume(ctx, mode, inserts):
+  """inserts: list of (frame, word) - each transmitted doubled on a line of its own."""
+  base = BASES[mode]
+  ctx.ev()
+  ctx.count("consume:probes")
+  rp = {"kind": "consume", "mode": mode, "inserts": [list(x) for x in inserts]}
+  try:
+    want = _read_fp(_render(base))
+    got = _read_fp(_render(base + [(f, [w, w]) for f, w in inserts]))
+  except Exception as e:  # pylint: disable=broad-except
+    ctx.violation("consume-raises", f"{mode} stream with foreign words {[hex(w) for _, w in inserts]}: {type(e).__name__}: {e}", rp)
+    return
+  if want[3] is not None and want[3][-1]:
+    ctx.nontriv(("consume", mode, tuple(inserts)))
+  if got != want:
+    ws = sorted({w for _, w in inserts})
+    r = T.classify(ws[0])
+    tag = f"{r['cls']}:ch{r['channel']}" + (":field2" if r.get("field") == 2 else "")
+    ctx.violation(f"foreign-word-decoded:{tag}:{mode}", f"{mode} channel-1 stream: inserting {[hex(w) for w in ws]} ({tag}) on lines of their own at frames "
+                  f"{[f for f, _ in inserts]} changes the document the reader returns", rp)
+
+
+def foreign_words():
+  """Parity-stripped code words that the reference attributes to channel 2 or to neither channel (field 2)."""
+  out = {}
+  for v in range(0x1000, 0x2000):
+    if v != (v & 0x7F7F):
+      continue
+    r = T.classify(v)
+    if r["cls"] in ("pac", "midrow", "control", "attribute", "special", "extended") and r["channel"] != 1:
+      out.setdefault((r["cls"], r["channel"], r.get("field")), []).append(v)
+  return out
+
+
+def run_consume(ctx, params):
+  fw = foreign_words()
+  for key, vs in sorted(fw.items(), key=lambda kv: repr(kv[0])):
+    ctx.count(f"consume:class:{key[0]}:ch{key[1]}" + (":field2" if key[2] == 2 else ""), len(vs))
+  rng = ctx.rng("consume")
+  slots = [15, 75, 100, 165, 190, 255, 330]
+  for mode in BASES:
+    # every foreign control code (they act on memories) at every slot; three representatives of the other classes
+    for key, vs in sorted(fw.items(), key=lambda kv: repr(kv[0])):
+      pick = vs if key[0] == "control" else [vs[0], vs[len(vs) // 2], vs[-1]]
+      for w in pick:
+        for f in slots[:5]:
+          check_consume(ctx, mode, [(f, w)])
+    allv = [v for vs in fw.values() for v in vs]
+    for _ in range(params["random"]):
+      k = rng.choice([1, 2, 3, 5])
+      check_consume(ctx, mode, sorted({(rng.choice(slots), rng.choice(allv)) for _ in range(k)}))
+
+
 def run(ctx, params):
+  if params["kind"] == "consume":
+    run_consume(ctx, params)
+    return
   if params["kind"] == "words":
     for v in range(params["lo"], params["hi"]):
       check_word(ctx, v)
@@ -310,7 +411,9 @@ def run(ctx, params):
 
 
 def replay(ctx, payload):
-  if payload["kind"] == "word":
+  if payload["kind"] == "consume":
+    check_consume(ctx, payload["mode"], [tuple(x) for x in payload["inserts"]])
+  elif payload["kind"] == "word":
     check_word(ctx, payload["value"])
   else:
     check_line(ctx, payload["words"], payload.get("tc", "01:02:03:04"))
